@@ -17274,7 +17274,7 @@ void cgi_free_particle(cgns_pzone *pzone)
    if (pzone->link) CGNS_FREE(pzone->link);
    if (pzone->nfamname) {
        for (n=0; n<pzone->nfamname; n++)
-            cgi_free_famname(pzone->famname);
+            cgi_free_famname(&pzone->famname[n]);
        CGNS_FREE(pzone->famname);
    }
    if (pzone->ndescr) {
@@ -17294,7 +17294,7 @@ void cgi_free_particle(cgns_pzone *pzone)
    }
    if (pzone->nintegrals) {
        for (n=0; n<pzone->nintegrals; n++)
-            cgi_free_integral(pzone->integral);
+            cgi_free_integral(&pzone->integral[n]);
        CGNS_FREE(pzone->integral);
    }
    if (pzone->state) {
